@@ -1,12 +1,26 @@
 #!/bin/sh
-# Extract the models and build the driver.  usage: build.sh  (run from anywhere)
+# Extract one model and build its driver.  usage: build.sh <Cxx>   -> build/driver-<Cxx>
+# The machine instance is coq/Extract/M_<Cxx>.v (init, fstep); extraction uses
+# ExtrOcamlBasic only; N/Z/positive/nat stay Coq datatypes.
 set -e
+id="$1"
 here=$(cd "$(dirname "$0")" && pwd)
-mkdir -p "$here/extracted"
-cd "$here/extracted"
-rm -f *.ml *.mli *.cm* *.o
-coqc -Q "$here/../coq" Verif "$here/../coq/Extract/Extract.v" >/dev/null
-cp "$here/drvlib.ml" "$here/driver.ml" .
-# dependency order via ocamlfind ocamldep -sort
+root=$(cd "$here/.." && pwd)
+dir="$root/build/extract/$id"
+rm -rf "$dir"; mkdir -p "$dir"; cd "$dir"
+cat > Extract_$id.v <<EOT
+From Coq Require Import Extraction ExtrOcamlBasic.
+From Verif Require Import Base.Prelude Base.Machine Extract.M_$id.
+Extraction Language OCaml.
+Separate Extraction
+  BinInt.Z.add BinInt.Z.mul BinInt.Z.opp BinInt.Z.div_eucl BinInt.Z.eqb BinInt.Z.ltb
+  Machine.r_model Machine.r_vimpl Machine.r_vmodel Machine.r_excused
+  M_$id.init M_$id.fstep.
+EOT
+coqc -Q "$root/coq" Verif Extract_$id.v >/dev/null
+cp "$here/drvlib.ml" .
+cat > driver.ml <<EOT
+let () = Drvlib.serve M_$id.init M_$id.fstep
+EOT
 files=$(ocamlfind ocamldep -sort *.mli *.ml)
-ocamlfind ocamlopt -w -a -O2 -o "$here/driver" $files 2>/dev/null || ocamlfind ocamlopt -w -a -o "$here/driver" $files
+ocamlfind ocamlopt -w -a -O2 -o "$root/build/driver-$id" $files 2>/dev/null || ocamlfind ocamlopt -w -a -o "$root/build/driver-$id" $files
